@@ -331,6 +331,18 @@ func (s *vCutSrc) Read(p []byte) (int, error) {
 	return n, nil
 }
 
+// vStallSrc serves its data and then returns (0, nil) for ever.
+type vStallSrc struct {
+	data []byte
+	pos  int
+}
+
+func (s *vStallSrc) Read(p []byte) (int, error) {
+	n := copy(p, s.data[s.pos:])
+	s.pos += n
+	return n, nil
+}
+
 type vCutRW struct {
 	vCutSrc
 	out []byte
